@@ -22,6 +22,7 @@ PROP = {  # commit subject fragment -> (property, id)
  "Object equality is not symmetric": ("C19", "F10"),
  "loses the decoded-string race releases": ("C18", "F24"),
  "BitMask::clear_high_bits(LEN)": ("C17", "F25"),
+ "map keys accept leading whitespace": ("C04", "F26"),
 }
 KNOWN = []
 out = []
